@@ -38,8 +38,8 @@ func run(c qeng.Case) vt.Verdict {
 
 func TestProp(t *testing.T) {
 	vt.Main(t, vt.Spec[qeng.Case]{
-		ID: "C02",
-		Rule: "rapid-generated histories: 0-6 targeted nodes (0 via a per-node function that skips every node), thresholds 1..n+1 and value-dependent scripts, a scripted sequence of replies, node errors, silences and outages with one cancellation / deadline / pre-cancelled context placed at a generated position of that sequence, sync and async variants with repeated and concurrent Get/Done observations; outcome compared with the reference model (success iff quorum reported; Incomplete only when every targeted node answered, with errors+replies = targets; context error only when the context ended; never waits once one holds; never returns while none holds); non-trivial = the history contains an error, silence, outage or context end, or at most one targeted node",
+		ID:           "C02",
+		Rule:         "rapid-generated histories: 0-6 targeted nodes (0 via a per-node function that skips every node), thresholds 1..n+1 and value-dependent scripts, a scripted sequence of replies, node errors, silences and outages with one cancellation / deadline / pre-cancelled context placed at a generated position of that sequence, sync and async variants with repeated and concurrent Get/Done observations; outcome compared with the reference model (success iff quorum reported; Incomplete only when every targeted node answered, with errors+replies = targets; context error only when the context ended; never waits once one holds; never returns while none holds); non-trivial = the history contains an error, silence, outage or context end, or at most one targeted node",
 		Gen:          gen,
 		Run:          run,
 		TrackCurrent: true,
